@@ -28,6 +28,9 @@ SendFree(s) == /\ holder # s /\ pc[s] = "idle" /\ n[s] < MaxReq
                /\ wire' = Append(wire, <<s, n[s] + 1>>) /\ pc' = [pc EXCEPT ![s] = "sent"] /\ UNCHANGED <<holder, n, got>>
 AcquireSent(s) == /\ holder = None /\ pc[s] = "sent"
                   /\ holder' = s /\ pc' = [pc EXCEPT ![s] = "wait"] /\ UNCHANGED <<n, wire, got>>
+\* DEVIATION (not the code): give the connection up between forwarding and reading the reply; it is taken again (AcquireSent) to read
+ReleaseWaiting(s) == /\ holder = s /\ pc[s] = "wait"
+                     /\ holder' = None /\ pc' = [pc EXCEPT ![s] = "sent"] /\ UNCHANGED <<n, wire, got>>
 Hold == Discipline \in {"hold", "any"}
 Free == Discipline \in {"send-first", "any"}
 Acquire(s) == (Hold /\ AcquireIdle(s)) \/ (Free /\ AcquireSent(s))
@@ -41,7 +44,7 @@ Release(s) == /\ holder = s /\ pc[s] = "rcvd"
 \* session on the wire; the connection is given up again without a request having been forwarded
 Establish(s) == /\ Hold /\ holder = s /\ pc[s] = "held" /\ wire = <<>>
                 /\ holder' = None /\ pc' = [pc EXCEPT ![s] = "idle"] /\ UNCHANGED <<n, wire, got>>
-CNext == \E s \in Sess : Acquire(s) \/ Send(s) \/ Answer(s) \/ Release(s) \/ Establish(s)
+CNext == \E s \in Sess : Acquire(s) \/ Send(s) \/ Answer(s) \/ Release(s) \/ Establish(s) \/ (Free /\ ReleaseWaiting(s))
 CSpec == CInit /\ [][CNext]_cvars /\ WF_cvars(CNext) /\ SF_cvars(\E s \in Sess : Send(s))
 \* every session reads the replies to its own requests, in its own order
 OwnReply == \A s \in Sess : \A i \in 1 .. Len(got[s]) : got[s][i] = <<s, i>>
